@@ -10,6 +10,7 @@ import (
 	"image/draw"
 	"strings"
 
+	"github.com/reactivego/ivg/decode"
 	"github.com/reactivego/ivg/raster/vec"
 	"github.com/reactivego/ivg/render"
 	"golang.org/x/image/vector"
@@ -75,7 +76,25 @@ type replayOp struct {
 	src  image.Image
 }
 
+// DPIX <w> <h> <hex>: decode.Decode into a Renderer backed by the bundled raster/vec rasteriser drawing into a
+// w x h image.RGBA; the outcome only (what matters is that it terminates without panicking)
+func dpixCase(a []string) (out string) {
+	w, h := intarg(a[0]), intarg(a[1])
+	b := hexarg(a[2])
+	defer func() {
+		if x := recover(); x != nil {
+			out = "PANIC " + strings.ReplaceAll(fmt.Sprint(x), " ", "_")
+		}
+	}()
+	img := image.NewRGBA(image.Rect(0, 0, w, h))
+	z := vec.NewRasterizer(img)
+	r := &render.Renderer{}
+	r.SetRasterizer(z, img.Bounds())
+	return decOutcome(decode.Decode(r, b))
+}
+
 func init() {
+	handlers["DPIX"] = dpixCase
 	// PIXOFF <kind> <w> <h> <ox> <oy> <script>: own image vs offset inside a larger image
 	handlers["PIXOFF"] = func(a []string) string {
 		kind := a[0]
